@@ -134,6 +134,15 @@ Record world := {
   w_ica_allow : mkind -> bool
 }.
 
+(** the sender-nonce write of ApplyEvmMsg before the EVM invocation, per branch of the Create-vs-Call dispatch *)
+Inductive prew :=
+| PreNone      (* no write *)
+| PreSame      (* StateDB.SetNonce(from, msg.Nonce()) *)
+| PreNext      (* StateDB.SetNonce(from, msg.Nonce()+1) *)
+| PreUnknown.  (* the extractor saw different writes on different paths: modelled as no write, refused by the obligation *)
+Definition prew_of_nat (n : nat) : prew :=
+  match n with 0%nat => PreNone | 1%nat => PreSame | 2%nat => PreNext | _ => PreUnknown end.
+
 (** ---------------------------------------------------------------- what the code is, per generated facts *)
 Record cfg := {
   nonevm_known : bool;      (* no extension option → NewAnteHandlerNonEVM *)
@@ -164,7 +173,8 @@ Record cfg := {
   refund_floor : txty -> bool; (* EffectiveGasPriceWeiPerGas (the price Keeper.RefundGas REFUNDS leftover gas at) is
                                   max(base fee, named price) *)
   (* msg server, ApplyEvmMsg *)
-  nonce_reset : bool;       (* StateDB.SetNonce(from, msg.Nonce()) before the EVM runs *)
+  pre_nonce_call : prew;    (* what ApplyEvmMsg writes into the sender nonce BEFORE evm.Call: msg.Nonce()+1 (as go-ethereum) *)
+  pre_nonce_create : prew;  (* … before evm.Create: msg.Nonce() (evm.Create increments it itself, after its balance check) *)
   post_nonce_call : bool;   (* StateDB.SetNonce(from, msg.Nonce()+1) after evm.Call, whatever its result *)
   post_nonce_create : bool; (* … after evm.Create, whatever its result *)
   (* wasm message handler *)
@@ -196,11 +206,20 @@ Definition eth_exec (s : st) (from : addr) (gas value : Z) (x : xinfo) : xres :=
 Definition pay_price (c : cfg) (p : Z) (x : xinfo) : Z := if fee_floor c (x_ty x) then p else x_raw x.
 Definition refund_price (c : cfg) (p : Z) (x : xinfo) : Z := if refund_floor c (x_ty x) then p else x_raw x.
 
+Definition pre_nonce (c : cfg) (k : xkind) : prew :=
+  match k with XCall => pre_nonce_call c | XCreate => pre_nonce_create c end.
+Definition pre_apply (c : cfg) (k : xkind) (s : st) (from : addr) (nonce : nat) : st :=
+  match pre_nonce c k with
+  | PreSame => set_seq s from nonce
+  | PreNext => set_seq s from (S nonce)
+  | PreNone | PreUnknown => s
+  end.
+
 Definition post_nonce (c : cfg) (k : xkind) : bool :=
   match k with XCall => post_nonce_call c | XCreate => post_nonce_create c end.
 
 (** Keeper.EthereumTx: ApplyEvmMsg fails the MESSAGE when the gas limit is below the intrinsic gas; otherwise it
-    resets the sender nonce to msg.nonce, runs the EVM (a VM error is NOT a message failure), writes
+    writes the sender nonce (msg.nonce before a creation, msg.nonce + 1 before a call), runs the EVM (a VM error is NOT a message failure), writes
     msg.nonce + 1, and RefundGas pays (gas − used) × price back from the fee collector — it ASSUMES the ante
     handler charged gas × price and checked the nonce *)
 Definition leaf_run (c : cfg) (w : world) (s : st) (l : leaf) : option st :=
@@ -210,7 +229,7 @@ Definition leaf_run (c : cfg) (w : world) (s : st) (l : leaf) : option st :=
       if gas <? x_intr x then None                     (* intrinsic gas too low: the message fails *)
       else
         let r := eth_exec s from gas value x in
-        let s0 := if nonce_reset c then set_seq s from nonce else s in
+        let s0 := pre_apply c (x_kind x) s from nonce in
         let s1 := if r_evm_nonce r then set_seq s0 from (S (seq_of s0 from)) else s0 in
         let s2 := if post_nonce c (x_kind x) then set_seq s1 from (S nonce) else s1 in
         let s3 := if r_ok r then add_bal (add_bal s2 from (- value)) (w_sink w) value else s2 in
@@ -360,7 +379,7 @@ Fixpoint price_fact (l : list (string * (bool * bool))) (ty : txty) : bool * boo
 
 Definition cfg_of_facts (nonevm evm : list string) (x : ext_facts) (gp ga : guard) (wh : wasm_facts)
            (sgc : string) (registered_ext : list string) (eth_signers_recovered : bool) (fee_of_total : bool)
-           (apply_nonce : bool * bool * bool) (price_facts : list (string * (bool * bool))) : cfg :=
+           (apply_pre : nat * nat) (apply_post : bool * bool) (price_facts : list (string * (bool * bool))) : cfg :=
   {| nonevm_known := match route_of x NoExt with RouteNonEVM => true | _ => false end;
      evm_route := route_of x EvmExt;
      other_route := route_of x OtherExt;
@@ -383,7 +402,8 @@ Definition cfg_of_facts (nonevm evm : list string) (x : ext_facts) (gp ga : guar
      fee_exact := fee_of_total;
      e_seq := mem N_ETH_INCR_SEQ evm;
      fee_floor := fun ty => fst (price_fact price_facts ty); refund_floor := fun ty => snd (price_fact price_facts ty);
-     nonce_reset := fst (fst apply_nonce); post_nonce_call := snd (fst apply_nonce); post_nonce_create := snd apply_nonce;
+     pre_nonce_call := prew_of_nat (fst apply_pre); pre_nonce_create := prew_of_nat (snd apply_pre);
+     post_nonce_call := fst apply_post; post_nonce_create := snd apply_post;
      wasm_signer := w_signer_is_contract wh;
      wasm_no_eth := w_refuses_eth wh |}.
 
@@ -393,7 +413,7 @@ Definition cfg_current : cfg :=
      g_prevent := true; g_authz := true; g_authz_exec := true; g_authz_rec := false; vb_on := true; sig_on := true; sig_accepts_eth := false; signer_recovered := true;
      fee_on := true; seq_on := true; e_vb := true; e_sig := true; e_acc := true; e_gas := true; fee_exact := true; e_seq := true;
      fee_floor := fun _ => true; refund_floor := fun _ => true;
-     nonce_reset := true; post_nonce_call := true; post_nonce_create := true;
+     pre_nonce_call := PreNext; pre_nonce_create := PreSame; post_nonce_call := true; post_nonce_create := true;
      wasm_signer := true; wasm_no_eth := true |}.
 
 Definition st_init (accts : list addr) (bal : Z) : st :=
